@@ -200,6 +200,157 @@ def unit_write_contact(ctx):
   ctx.notes.append(f"{n} capacity-dimension obligations")
 
 
+def unit_flood_fill(nt, search_only):
+  """island._flood_fill DFS stack: stack_scratch is allocated by the REAL host function island.flood_fill (its shape is taken
+  from a trace of that function on a model with nt trees); every stack access must be inside it for every symmetric 0/1
+  tree-tree adjacency and every initial labelling.  nt <= 4: all obligations proved.  nt >= 5: counterexample search only
+  (per-query timeout; 'unknown' = no claim)."""
+
+  def run(ctx):
+    import mujoco
+
+    import mujoco_warp as mjw
+    from mujoco_warp._src import island
+    from wsym import host
+
+    xml = "<mujoco><worldbody>" + "".join(f'<body pos="{i} 0 0"><freejoint/><geom size=".1"/></body>' for i in range(nt)) + "</worldbody></mujoco>"
+    mjm = mujoco.MjModel.from_xml_string(xml)
+    m = mjw.put_model(mjm)
+    d = mjw.make_data(mjm, nworld=1)
+    if int(m.ntree) != nt:
+      ctx.error(f"model has {m.ntree} trees, expected {nt}")
+      return
+    # shape of the scratch stack as the real host code allocates it
+    tt_real = wp_zeros((1, nt, nt))
+    with host.HostRun(mode="trace") as hr:
+      island.flood_fill(m, host.shim_dataclass(d, "d.", symbolic=lambda n: False), tt_real)
+    S = None
+    for e in hr.events:
+      if e.kind == "launch" and e.kernel is island._flood_fill:
+        S = e.info
+    k = island._flood_fill
+    ctx.encode(k, island.flood_fill)
+    S = STACK_SHAPE.get("last")
+    if S is None:
+      ctx.error("could not observe the stack allocation of island.flood_fill")
+      return
+    nworld = z3.Int("nworld")
+    lab = kh.sym_value("tree_island", [t for l, t in kh.arg_specs(k) if l == "labels_in"][0], "array", [nworld, nt])
+    kt = lib.kernel_thread(k, shapes={"tree_tree_in": [nworld, nt, nt], "stack_in": [nworld, S], "nisland_out": [nworld]}, scalars={"ntree": nt, "labels_in": lab, "tree_island_out": lab}, unroll=(10 if search_only else 2 + nt * (nt - 1)), assume_bounds=False, cap=64)
+    w = kt.tid
+    tt = kt.cell("tree_tree_in").a0[0]
+    i, j = z3.Ints("i j")
+    bg = [z3.And(w >= 0, w < nworld, nworld >= 1, nworld <= 2)] + [core.zbool(a) for a in kt.it.assumes]
+    bg.append(z3.ForAll([i, j], z3.Implies(z3.And(i >= 0, i < nt, j >= 0, j < nt), z3.And(z3.Or(z3.Select(tt, w, i, j) == 0, z3.Select(tt, w, i, j) == 1), z3.Select(tt, w, i, j) == z3.Select(tt, w, j, i)))))
+    ctx.assume("tree_tree is a symmetric 0/1 matrix (post-condition of _tree_edges, proved in C28); labels arbitrary", f"stack shape ({S}) observed from the real island.flood_fill host function for ntree={nt}")
+    ctx.bound(ntree=nt, stack=S, unroll=2 + nt * (nt - 1), mode="counterexample search only" if search_only else "all obligations proved")
+    sess = ctx.session(bg, timeout_ms=(8000 if search_only else None))
+    ctx.reach(sess, "twin:reachable", True)
+    n = unk = 0
+    seen = set()
+    for o in kt.it.obl:
+      if o.kind == "bounds" and o.info[1] != "stack_in":
+        continue
+      if o.kind == "bounds" and o.info[2] != 1:
+        continue
+      if search_only and o.kind != "bounds":
+        continue  # the loop is deliberately cut short in search mode
+      key = (o.kind, o.where, o.cond.sexpr() if is_sym(o.cond) else str(o.cond), o.guard.sexpr() if is_sym(o.guard) else str(o.guard))
+      if key in seen:
+        continue
+      seen.add(key)
+      n += 1
+      qn = f"{o.kind}:{'stack' if o.kind == 'bounds' else 'loop'}@{o.where.split(':')[-1]}#{n}"
+      if search_only:
+        res = sess.prove(qn, o.cond, o.guard)
+        ctx._rec(res)
+        if res.status == "sat":
+          ok, path = flood_fill_replay(nt, res.model, tt, w)
+          if ok:
+            ctx.violations.append({"key": f"{ctx.unit}:{qn}", "desc": f"island._flood_fill overruns its DFS stack (size {S}) for ntree={nt}", "replay": path})
+          else:
+            ctx.error(f"flood-fill counterexample for ntree={nt} did not reproduce: {path}")
+          break
+        if res.status != "unsat":
+          unk += 1
+          if unk >= 3:
+            break
+      else:
+        ctx.prove(sess, qn, o.cond, o.guard, replay=lambda mdl: flood_fill_replay(nt, mdl, tt, w), desc=f"island._flood_fill overruns its DFS stack (size {S}) for ntree={nt}")
+    ctx.notes.append(f"{n} stack / unwinding obligations" + (f"; search stopped after {unk} inconclusive queries (no claim for ntree={nt})" if search_only else ""))
+
+  return (f"flood_fill/ntree{nt}" + ("/search" if search_only else ""), run)
+
+
+STACK_SHAPE = {}
+
+
+def wp_zeros(shape):
+  import warp as wp
+
+  return wp.zeros(shape, dtype=int)
+
+
+def _install_stack_probe():
+  """record the shape of the scratch stack island.flood_fill allocates (wp.empty inside the host function)"""
+  from wsym import host
+
+  orig = host.HostRun._alloc
+
+  def _alloc(self, shape, dtype, fill):
+    a = orig(self, shape, dtype, fill)
+    if len(a.shape) == 2:
+      STACK_SHAPE["last"] = int(a.shape[1])
+    return a
+
+  host.HostRun._alloc = _alloc
+
+
+def flood_fill_replay(nt, model, tt, w):
+  """real island.flood_fill on the solver's adjacency under Warp's bounds-checked build, in a subprocess"""
+  import json
+  import os
+  import subprocess
+  import sys
+
+  adj = [[int(kh.mval(model, z3.Select(tt, w, z3.IntVal(i), z3.IntVal(j)))) for j in range(nt)] for i in range(nt)]
+  os.makedirs(os.path.join(report.VERIF, "replays", PID), exist_ok=True)
+  path = os.path.join(report.VERIF, "replays", PID, f"flood_fill.ntree{nt}.json")
+  json.dump({"property": PID, "ntree": nt, "tree_tree": adj, "how": "python -m checks.c17 <this file>: real island.flood_fill on this adjacency with wp.config.mode='debug'"}, open(path, "w"))
+  env = dict(os.environ)
+  p = subprocess.run([sys.executable, "-m", "checks.c17", path], cwd=report.VERIF, env=env, capture_output=True, text=True, timeout=900)
+  out = (p.stdout + p.stderr)[-600:]
+  if p.returncode not in (0,) and ("Assertion" in out or p.returncode < 0):
+    return True, path
+  return False, f"{path} (rc={p.returncode}: {out[-200:]})"
+
+
+def _replay_main(path):
+  import json
+
+  import warp as wp
+
+  wp.config.quiet = True
+  wp.config.mode = "debug"
+  import mujoco
+  import numpy as np
+
+  import mujoco_warp as mjw
+  from mujoco_warp._src import island
+
+  spec = json.load(open(path))
+  nt = spec["ntree"]
+  xml = "<mujoco><worldbody>" + "".join(f'<body pos="{i} 0 0"><freejoint/><geom size=".1"/></body>' for i in range(nt)) + "</worldbody></mujoco>"
+  mjm = mujoco.MjModel.from_xml_string(xml)
+  m = mjw.put_model(mjm)
+  d = mjw.make_data(mjm, nworld=2)
+  tt = wp.array(np.array([spec["tree_tree"], spec["tree_tree"]], dtype=np.int32), dtype=int)
+  island.flood_fill(m, d, tt)
+  wp.synchronize()
+  print("completed: nisland", d.nisland.numpy(), "tree_island", d.tree_island.numpy().tolist())
+  return 0
+
+
 def unit_padding(ctx):
   """pure-Python sizing helpers of io.py, interpreted by the same engine with symbolic ints"""
   import inspect
@@ -223,6 +374,16 @@ def main(tier, seed, only=None):
   units = [unit_rows(b, s) for b in BUILDERS for s in specs]
   units += [unit_contact_init(c, s) for c in (False, True) for s in ((False, True) if tier == "thorough" else (True,))]
   units.append(("write_contact", unit_write_contact))
+  _install_stack_probe()
+  units += [unit_flood_fill(3, False), unit_flood_fill(5, True)]
+  if tier == "thorough":
+    units += [unit_flood_fill(4, False), unit_flood_fill(6, True)]
   if only:
     units = [u for u in units if any(o in u[0] for o in only)]
   return report.run_check(PID, units, tier, seed)
+
+
+if __name__ == "__main__":
+  import sys
+
+  sys.exit(_replay_main(sys.argv[1]))
